@@ -220,3 +220,15 @@ func ServiceStats(name string) map[string]int64 {
 
 // Itoa is a tiny helper.
 func Itoa(i int) string { return strconv.Itoa(i) }
+
+// WaitRefresh waits until the Redis processor has loaded its slot table once.
+func WaitRefresh(name string, d time.Duration) bool {
+	dl := time.Now().Add(d)
+	for time.Now().Before(dl) {
+		if ServiceStats(name)["upstream.slots_refresh.success_total"] >= 1 {
+			return true
+		}
+		time.Sleep(time.Millisecond)
+	}
+	return false
+}
